@@ -49,8 +49,8 @@ type Ctx struct {
 	// position when it finds something and the constant -1 otherwise, the one
 	// return that reports a find.
 	searchRet map[*ast.CallExpr]*ast.ReturnStmt
-	requested  map[string]bool
-	idx        map[*packages.Package]*pkgIndex
+	requested map[string]bool
+	idx       map[*packages.Package]*pkgIndex
 
 	Renamed []string // renamed functions recognised by signature
 	// load configuration (for evidence)
@@ -113,6 +113,11 @@ func loadCtx(repo, tier string, extraEnv []string, buildFlags []string) (*Ctx, e
 		return nil, err
 	}
 	c.Renamed = append(c.Renamed, snotes...)
+	if k, err := normaliseSyntax(map[string]*packages.Package{pathRoot: c.Root, pathW: c.W, pathCmd: c.Cmd}); err != nil {
+		return nil, err
+	} else if k > 0 {
+		c.Renamed = append(c.Renamed, fmt.Sprintf("%d conditions brought into negation normal form / constant-on-the-right form", k))
+	}
 	for _, p := range []*packages.Package{c.Root, c.W, c.Cmd} {
 		for _, f := range p.Syntax {
 			for _, d := range f.Decls {
